@@ -324,14 +324,15 @@ CHECKS = {
     },
     "C07": {
         "engine": "Json", "design_ref": "DESIGN.md section 4 / C07",
-        "technique": "Coq proof (induction over JSON values) on an extracted model of the separator state machine + correspondence on real parser events",
+        "technique": "Coq proofs (induction over JSON values) on extracted models of the separator state machine AND of the dependency's pull parser + correspondence on real parser events and verdicts",
         "text": ("Theorems (Props/C07.v), for every JSON value of any depth: the model of json.Minify's loop renders exactly the compact form of the same "
                  "tree (nesting, member order, duplicate keys, byte-identical strings/literals; numbers through Number + zero repair), and with KeepNumbers "
-                 "every lexeme is byte-identical; the output is never longer than the compact rendering with the original number lexemes (a theorem since the repair of K48; before, the model refuted it with witness 7E-3). Tie: the extracted model consumes the "
+                 "every lexeme is byte-identical; the pull parser of the parse/v2 dependency (Parser.Next with its state stack, comma handling and scanners) is modelled too and, for every value and every white-space layout, delivers exactly the assumed event stream (parser_delivers_the_events_of_the_value), so that minifying ANY text of a value gives its compact rendering (json_text_to_compact); the output is never longer than the compact rendering with the original number lexemes (a theorem since the repair of K48; before, the model refuted it with witness 7E-3). Tie: the extracted model consumes the "
                  "event stream of the real parse/json parser for each generated document and must reproduce json.Minify's bytes; the spec's events_of is "
                  "compared with the real parser's events. Oracle: encoding/json token walk with math/big numbers."),
-        "note": ("Trusted: Coq kernel, extraction, driver, JsonSpec.v as the meaning of 'same value', harness, encoding/json. The parse/json parser is run, "
-                 "not modelled; numeric equality of rewritten numbers rests on C08."),
+        "note": ("Trusted: Coq kernel, extraction, driver, JsonSpec.v as the meaning of 'same value', harness, encoding/json. The parse/json parser is "
+                 "modelled by hand (Json/JsonParse.v) and compared with the real one on every text of a run, malformed ones included; numeric "
+                 "equality of rewritten numbers rests on C08."),
     },
     "C08": {
         "engine": "Num", "design_ref": "DESIGN.md section 4 / C08",
